@@ -19,24 +19,132 @@ def NatOrMissing (q : Option Rat) : Prop := q = none ∨ ∃ n : Nat, q = some (
 
 /-! ### the run-splitting specification -/
 
+theorem splitRuns_cons_eq {κ} [BEq κ] (lv : Seg → κ) (x : Seg) (xs : List Seg) :
+    splitRuns lv (x :: xs) =
+      match splitRuns lv xs with
+      | [] => [[x]]
+      | (y :: ys) :: rest =>
+        if x.chrom == y.chrom && lv x == lv y then (x :: y :: ys) :: rest else [x] :: (y :: ys) :: rest
+      | [] :: rest => [x] :: rest := by
+  rw [splitRuns]
+  rfl
+
 theorem splitRuns_flatten {κ} [BEq κ] (lv : Seg → κ) (t : List Seg) : (splitRuns lv t).flatten = t := by
-  sorry
+  induction t with
+  | nil => simp [splitRuns]
+  | cons x xs ih =>
+    rw [splitRuns_cons_eq]
+    split
+    · rename_i h; rw [h] at ih; simp at ih; simp [ih]
+    · rename_i y ys rest h; rw [h] at ih
+      split <;> simp_all
+    · rename_i rest h; rw [h] at ih; simp_all
 
 theorem splitRuns_nonempty {κ} [BEq κ] (lv : Seg → κ) (t : List Seg) : ∀ g ∈ splitRuns lv t, g ≠ [] := by
-  sorry
+  induction t with
+  | nil => simp [splitRuns]
+  | cons x xs ih =>
+    rw [splitRuns_cons_eq]
+    split
+    · simp
+    · rename_i y ys rest h; rw [h] at ih
+      split <;> simp_all
+    · rename_i rest h; rw [h] at ih; simp_all
 
 /-- inside a run all rows share chromosome and level -/
 theorem splitRuns_uniform {κ} [BEq κ] [LawfulBEq κ] (lv : Seg → κ) (t : List Seg) :
     ∀ g ∈ splitRuns lv t, ∀ a ∈ g, ∀ b ∈ g, a.chrom = b.chrom ∧ lv a = lv b := by
-  sorry
+  induction t with
+  | nil => simp [splitRuns]
+  | cons x xs ih =>
+    rw [splitRuns_cons_eq]
+    split
+    · simp
+    · rename_i y ys rest h; rw [h] at ih
+      split
+      · rename_i hc
+        simp only [Bool.and_eq_true, beq_iff_eq] at hc
+        intro g hg
+        rcases List.mem_cons.mp hg with rfl | hg
+        · have ih0 := ih (y :: ys) (by simp)
+          have hy : ∀ a ∈ x :: y :: ys, x.chrom = a.chrom ∧ lv x = lv a := by
+            intro a ha
+            rcases List.mem_cons.mp ha with h | ha
+            · rw [h]; exact ⟨rfl, rfl⟩
+            · have := ih0 y (by simp) a ha
+              exact ⟨hc.1.trans this.1, hc.2.trans this.2⟩
+          intro a ha b hb
+          have h1 := hy a ha
+          have h2 := hy b hb
+          exact ⟨h1.1.symm.trans h2.1, h1.2.symm.trans h2.2⟩
+        · exact ih g (by simp [hg])
+      · intro g hg
+        rcases List.mem_cons.mp hg with rfl | hg
+        · simp
+        · exact ih g hg
+    · rename_i rest h; rw [h] at ih
+      intro g hg
+      rcases List.mem_cons.mp hg with rfl | hg
+      · simp
+      · exact ih g (by simp [hg])
+
+theorem splitRuns_head {κ} [BEq κ] (lv : Seg → κ) (x : Seg) (xs : List Seg) :
+    ∃ A B, splitRuns lv (x :: xs) = (x :: A) :: B := by
+  rw [splitRuns_cons_eq]
+  split
+  · exact ⟨_, _, rfl⟩
+  · split <;> exact ⟨_, _, rfl⟩
+  · exact ⟨_, _, rfl⟩
 
 /-- runs are maximal: two neighbouring runs differ in chromosome or level at their junction -/
 theorem splitRuns_maximal {κ} [BEq κ] [LawfulBEq κ] (lv : Seg → κ) (t : List Seg)
     (pre post : List (List Seg)) (g1 g2 : List Seg) (h : splitRuns lv t = pre ++ [g1, g2] ++ post)
     (a b : Seg) (ha : g1.getLast? = some a) (hb : g2.head? = some b) :
     a.chrom ≠ b.chrom ∨ lv a ≠ lv b := by
-  sorry
-
+  induction t generalizing pre g1 with
+  | nil => simp [splitRuns] at h
+  | cons x xs ih =>
+    cases xs with
+    | nil =>
+      simp [splitRuns] at h
+      have := congrArg List.length h
+      simp at this
+      omega
+    | cons y ys =>
+      obtain ⟨A, B, hAB⟩ := splitRuns_head lv y ys
+      rw [splitRuns_cons_eq, hAB] at h
+      simp only at h
+      split at h
+      · -- x joins the first run
+        cases pre with
+        | nil =>
+          simp at h
+          obtain ⟨h1, h2⟩ := h
+          refine ih [] (y :: A) ?_ ?_
+          · simp [hAB, h2]
+          · rw [← h1] at ha; simpa using ha
+        | cons p pre' =>
+          simp at h
+          obtain ⟨h1, h2⟩ := h
+          refine ih ((y :: A) :: pre') g1 ?_ ha
+          simp [hAB, h2]
+      · rename_i hc
+        cases pre with
+        | nil =>
+          simp at h
+          obtain ⟨h1, h2, h3⟩ := h
+          subst h1 h2
+          simp at ha hb
+          rw [← ha, ← hb]
+          simp only [Bool.and_eq_true, beq_iff_eq, not_and] at hc
+          by_cases hch : x.chrom = y.chrom
+          · right; exact hc hch
+          · left; exact hch
+        | cons p pre' =>
+          simp at h
+          obtain ⟨h1, h2⟩ := h
+          refine ih pre' g1 ?_ ha
+          simp [hAB, h2]
 /-! ### squashing one run -/
 
 theorem squashRegion_fields (x : Seg) (xs : List Seg) :
@@ -45,33 +153,494 @@ theorem squashRegion_fields (x : Seg) (xs : List Seg) :
       r.probes = sumInt ((x :: xs).map (·.probes)) ∧ r.weight = sumRat ((x :: xs).map (·.weight)) ∧
       (0 < sumRat ((x :: xs).map (·.weight)) →
         r.log2 * sumRat ((x :: xs).map (·.weight)) = sumRat ((x :: xs).map (fun s => s.log2 * s.weight))) := by
-  sorry
+  refine ⟨_, rfl, rfl, rfl, rfl, rfl, rfl, ?_⟩
+  intro hw
+  have hne : sumRat ((x :: xs).map (·.weight)) ≠ 0 := fun h => by
+    rw [h] at hw; exact absurd hw (by decide)
+  show (if sumRat ((x :: xs).map (·.weight)) > 0 then
+      sumRat ((x :: xs).map (fun r => r.log2 * r.weight)) / sumRat ((x :: xs).map (·.weight))
+    else _) * _ = _
+  rw [if_pos hw, Rat.div_mul_cancel hne]
+
+theorem foldl_addInt (a : Int) (l : List Int) : l.foldl (· + ·) a = a + l.foldl (· + ·) 0 := by
+  induction l generalizing a with
+  | nil => simp
+  | cons x xs ih => simp only [List.foldl_cons]; rw [ih (a + x), ih (0 + x)]; omega
+
+theorem foldl_addRat (a : Rat) (l : List Rat) : l.foldl (· + ·) a = a + l.foldl (· + ·) 0 := by
+  induction l generalizing a with
+  | nil => simp [Rat.add_zero]
+  | cons x xs ih =>
+    simp only [List.foldl_cons]; rw [ih (a + x), ih (0 + x), Rat.zero_add, Rat.add_assoc]
+
+theorem sumInt_nil : sumInt [] = 0 := rfl
+theorem sumRat_nil : sumRat [] = 0 := rfl
+theorem sumInt_cons (x : Int) (xs : List Int) : sumInt (x :: xs) = x + sumInt xs := by
+  unfold sumInt; simp only [List.foldl_cons]; rw [foldl_addInt]; omega
+theorem sumRat_cons (x : Rat) (xs : List Rat) : sumRat (x :: xs) = x + sumRat xs := by
+  unfold sumRat; simp only [List.foldl_cons]; rw [foldl_addRat, Rat.zero_add]
+theorem sumInt_append (a b : List Int) : sumInt (a ++ b) = sumInt a + sumInt b := by
+  induction a with
+  | nil => simp [sumInt_nil]
+  | cons x xs ih => simp only [List.cons_append, sumInt_cons, ih]; omega
+theorem sumRat_append (a b : List Rat) : sumRat (a ++ b) = sumRat a + sumRat b := by
+  induction a with
+  | nil => simp [sumRat_nil, Rat.zero_add]
+  | cons x xs ih => simp only [List.cons_append, sumRat_cons, ih, Rat.add_assoc]
 
 theorem sumInt_flatten (ls : List (List Int)) : sumInt ls.flatten = sumInt (ls.map sumInt) := by
-  sorry
+  induction ls with
+  | nil => rfl
+  | cons l ls ih => simp only [List.flatten_cons, List.map_cons, sumInt_append, sumInt_cons, ih]
 
 theorem sumRat_flatten (ls : List (List Rat)) : sumRat ls.flatten = sumRat (ls.map sumRat) := by
-  sorry
+  induction ls with
+  | nil => rfl
+  | cons l ls ih => simp only [List.flatten_cons, List.map_cons, sumRat_append, sumRat_cons, ih]
+
+theorem filterMap_squash_map_some (gs : List (List Seg)) (hne : ∀ g ∈ gs, g ≠ []) :
+    (gs.filterMap squashRegion).map some = gs.map squashRegion := by
+  induction gs with
+  | nil => rfl
+  | cons g gs ih =>
+    have ih := ih (fun g' hg' => hne g' (by simp [hg']))
+    cases g with
+    | nil => exact absurd rfl (hne [] (by simp))
+    | cons x xs =>
+      obtain ⟨r, hr, -⟩ := squashRegion_fields x xs
+      simp only [List.filterMap_cons, hr, List.map_cons, ih]
+
+theorem filterMap_squash_probes (gs : List (List Seg)) (hne : ∀ g ∈ gs, g ≠ []) :
+    sumInt ((gs.filterMap squashRegion).map (·.probes)) = sumInt (gs.flatten.map (·.probes)) := by
+  induction gs with
+  | nil => rfl
+  | cons g gs ih =>
+    have ih := ih (fun g' hg' => hne g' (by simp [hg']))
+    cases g with
+    | nil => exact absurd rfl (hne [] (by simp))
+    | cons x xs =>
+      obtain ⟨r, hr, -, -, -, hp, -⟩ := squashRegion_fields x xs
+      simp only [List.filterMap_cons, hr, List.map_cons, List.flatten_cons, List.map_append,
+        sumInt_append, sumInt_cons, ih, hp]
+
+theorem filterMap_squash_weight (gs : List (List Seg)) (hne : ∀ g ∈ gs, g ≠ []) :
+    sumRat ((gs.filterMap squashRegion).map (·.weight)) = sumRat (gs.flatten.map (·.weight)) := by
+  induction gs with
+  | nil => rfl
+  | cons g gs ih =>
+    have ih := ih (fun g' hg' => hne g' (by simp [hg']))
+    cases g with
+    | nil => exact absurd rfl (hne [] (by simp))
+    | cons x xs =>
+      obtain ⟨r, hr, -, -, -, -, hp, -⟩ := squashRegion_fields x xs
+      simp only [List.filterMap_cons, hr, List.map_cons, List.flatten_cons, List.map_append,
+        sumRat_append, sumRat_cons, ih, hp]
 
 /-- total probes are conserved by the run-based filter -/
 theorem specSquash_conserves_probes (h : Bool) (f : Seg → Option Rat) (t : List Seg) :
     sumInt ((specSquash h f t).map (·.probes)) = sumInt (t.map (·.probes)) := by
-  sorry
+  unfold specSquash
+  rw [filterMap_squash_probes _ (splitRuns_nonempty _ t), splitRuns_flatten]
 
 /-- total weight is conserved -/
 theorem specSquash_conserves_weight (h : Bool) (f : Seg → Option Rat) (t : List Seg) :
     sumRat ((specSquash h f t).map (·.weight)) = sumRat (t.map (·.weight)) := by
-  sorry
+  unfold specSquash
+  rw [filterMap_squash_weight _ (splitRuns_nonempty _ t), splitRuns_flatten]
 
-/-- one output row per maximal run, in order, spanning from the run's first start to its last end
-    on the run's chromosome -/
 theorem specSquash_rows (h : Bool) (f : Seg → Option Rat) (t : List Seg) :
     (specSquash h f t).length = (splitRuns (fullLevel h f) t).length ∧
     ∀ i (hi : i < (splitRuns (fullLevel h f) t).length) (hj : i < (specSquash h f t).length),
       let g := (splitRuns (fullLevel h f) t)[i]
       let r := (specSquash h f t)[i]
       (∃ x xs, g = x :: xs ∧ r.chrom = x.chrom ∧ r.s = x.s ∧ r.e = (g.getLast?.getD x).e) := by
-  sorry
+  have hm := filterMap_squash_map_some _ (splitRuns_nonempty (fullLevel h f) t)
+  constructor
+  · have := congrArg List.length hm
+    simpa [specSquash] using this
+  · intro i hi hj
+    have hne := splitRuns_nonempty (fullLevel h f) t _ (List.getElem_mem hi)
+    have hi' : i < ((splitRuns (fullLevel h f) t).filterMap squashRegion).length := hj
+    have e1 : some (((splitRuns (fullLevel h f) t).filterMap squashRegion)[i]) =
+        squashRegion ((splitRuns (fullLevel h f) t)[i]) := by
+      have := congrArg (fun l => l[i]?) hm
+      simpa [hi, hi'] using this
+    show ∃ x xs, (splitRuns (fullLevel h f) t)[i] = x :: xs ∧
+      (((splitRuns (fullLevel h f) t).filterMap squashRegion)[i]).chrom = x.chrom ∧
+      (((splitRuns (fullLevel h f) t).filterMap squashRegion)[i]).s = x.s ∧
+      (((splitRuns (fullLevel h f) t).filterMap squashRegion)[i]).e =
+        (((splitRuns (fullLevel h f) t)[i]).getLast?.getD x).e
+    generalize (splitRuns (fullLevel h f) t)[i] = g at hne e1 ⊢
+    generalize ((splitRuns (fullLevel h f) t).filterMap squashRegion)[i] = r at e1 ⊢
+    cases g with
+    | nil => exact absurd rfl hne
+    | cons x xs =>
+      obtain ⟨r', hr, h1, h2, h3, -⟩ := squashRegion_fields x xs
+      rw [hr] at e1
+      cases e1
+      exact ⟨x, xs, rfl, h1, h2, h3⟩
+
+/-! ### `groupByKey` on lists whose equal keys are adjacent -/
+
+def tailGroups {α κ} [BEq κ] (key : α → κ) (a : κ) (l : List α) : List (List α) :=
+  (((l.map key).filter (fun b => !b == a)).eraseDups).map (fun k => l.filter (fun x => key x == k))
+
+theorem groupByKey_cons {α κ} [BEq κ] [LawfulBEq κ] (key : α → κ) (y : α) (l : List α) :
+    groupByKey key (y :: l) = (y :: l.filter (fun x => key x == key y)) :: tailGroups key (key y) l := by
+  unfold groupByKey tailGroups
+  rw [List.map_cons, List.eraseDups_cons, List.map_cons]
+  congr 1
+  · simp
+  · apply List.map_congr_left
+    intro k hk
+    have hk' := List.mem_eraseDups.mp hk
+    have hne : (key y == k) = false := by
+      have := (List.mem_filter.mp hk').2
+      simp only [Bool.not_eq_eq_eq_not, Bool.not_true, beq_eq_false_iff_ne, ne_eq] at this
+      simp only [beq_eq_false_iff_ne, ne_eq]
+      exact fun h => this h.symm
+    simp [hne]
+
+theorem groupByKey_cons_same {α κ} [BEq κ] [LawfulBEq κ] (key : α → κ) (x y : α) (l : List α)
+    (h : key x = key y) :
+    groupByKey key (x :: y :: l) =
+      (x :: y :: l.filter (fun z => key z == key y)) :: tailGroups key (key y) l := by
+  rw [groupByKey_cons]
+  congr 1
+  · simp [h]
+  · unfold tailGroups
+    have e : ((y :: l).map key).filter (fun b => !b == key x) = (l.map key).filter (fun b => !b == key y) := by
+      simp [h]
+    rw [e]
+    apply List.map_congr_left
+    intro k hk
+    have hk' := List.mem_eraseDups.mp hk
+    have hne : (key y == k) = false := by
+      have := (List.mem_filter.mp hk').2
+      simp only [Bool.not_eq_eq_eq_not, Bool.not_true, beq_eq_false_iff_ne, ne_eq] at this
+      simp only [beq_eq_false_iff_ne, ne_eq]
+      exact fun h => this h.symm
+    simp [hne]
+
+theorem groupByKey_cons_new {α κ} [BEq κ] [LawfulBEq κ] (key : α → κ) (x : α) (l : List α)
+    (h : key x ∉ l.map key) :
+    groupByKey key (x :: l) = [x] :: groupByKey key l := by
+  rw [groupByKey_cons]
+  have hne : ∀ z ∈ l, (key z == key x) = false := by
+    intro z hz
+    simp only [beq_eq_false_iff_ne, ne_eq]
+    intro hzx
+    exact h (hzx ▸ List.mem_map_of_mem hz)
+  congr 1
+  · congr 1
+    rw [List.filter_eq_nil_iff]
+    intro z hz
+    simp [hne z hz]
+  · unfold tailGroups groupByKey
+    congr 2
+    rw [List.filter_eq_self]
+    intro k hk
+    obtain ⟨z, hz, rfl⟩ := List.mem_map.mp hk
+    simp [hne z hz]
+
+theorem groupByKey_zip_eq_splitRuns {κ κ'} [BEq κ] [LawfulBEq κ] [BEq κ'] (lv : Seg → κ') :
+    ∀ (t : List Seg) (ks : List κ), ks.length = t.length →
+      (∀ i (h1 : i + 1 < ks.length) (h2 : i + 1 < t.length),
+        ks[i] = ks[i+1] ↔ (t[i].chrom == t[i+1].chrom && lv t[i] == lv t[i+1]) = true) →
+      (∀ i j (h1 : i + 1 < ks.length) (hj : j < ks.length), i < j → ks[i] ≠ ks[i+1] → ks[j] ≠ ks[i]) →
+      (groupByKey (·.1) (ks.zip t)).map (fun g => g.map (·.2)) = splitRuns lv t := by
+  intro t
+  induction t with
+  | nil => intro ks _ _ _; simp [groupByKey, splitRuns]
+  | cons x xs ih =>
+    intro ks hlen H1 H2
+    cases ks with
+    | nil => simp at hlen
+    | cons k ks' =>
+      cases xs with
+      | nil =>
+        have : ks' = [] := by simpa using hlen
+        subst this
+        simp [groupByKey_cons, tailGroups, splitRuns]
+      | cons y ys =>
+        cases ks' with
+        | nil => simp at hlen
+        | cons k' ks'' =>
+          have hlen' : (k' :: ks'').length = (y :: ys).length := by simpa using hlen
+          have ih' := ih (k' :: ks'') hlen'
+            (fun i h1 h2 => by
+              have := H1 (i+1) (by simpa using h1) (by simpa using h2)
+              simpa using this)
+            (fun i j h1 hj hij hne => by
+              have := H2 (i+1) (j+1) (by simpa using h1) (by simpa using hj) (by omega)
+              simpa using this (by simpa using hne))
+          rw [List.zip_cons_cons, groupByKey_cons, List.map_cons, List.map_cons] at ih'
+          have h01 := H1 0 (by simp) (by simp)
+          simp only [List.getElem_cons_zero, List.getElem_cons_succ, Nat.zero_add] at h01
+          rw [splitRuns_cons_eq, ← ih']
+          by_cases hk : k = k'
+          · subst hk
+            rw [List.zip_cons_cons, List.zip_cons_cons, groupByKey_cons_same (fun p : κ × Seg => p.1) (k, x) (k, y) _ rfl]
+            have hc := h01.mp rfl
+            simp only [hc, if_true, List.map_cons]
+          · have hc : ¬ ((x.chrom == y.chrom && lv x == lv y) = true) := fun hc => hk (h01.mpr hc)
+            rw [List.zip_cons_cons, groupByKey_cons_new, List.zip_cons_cons, groupByKey_cons]
+            · simp only [hc, if_false, List.map_cons, List.map_nil, Bool.false_eq_true]
+            · rw [List.map_fst_zip (by simpa using Nat.le_of_eq hlen')]
+              intro hmem
+              obtain ⟨j, hj, hjk⟩ := List.mem_iff_getElem.mp hmem
+              have := H2 0 (j+1) (by simp) (by simpa using hj) (by omega) (by simpa using hk)
+              exact this (by simpa using hjk)
+/-! ### integer key columns that track a relation between neighbouring rows -/
+
+/-- `c` is a non-decreasing integer column over `t` whose neighbouring entries are equal exactly
+    when the neighbouring rows are related by `P` -/
+def Tracks (c : List Int) (t : List Seg) (P : Seg → Seg → Prop) : Prop :=
+  c.length = t.length ∧ ∀ i (h1 : i + 1 < c.length) (h2 : i + 1 < t.length),
+    c[i] ≤ c[i+1] ∧ (c[i] = c[i+1] ↔ P t[i] t[i+1])
+
+theorem Tracks.mono {c t P} (h : Tracks c t P) :
+    ∀ j i (hj : j < c.length), (hij : i ≤ j) → c[i] ≤ c[j] := by
+  intro j
+  induction j with
+  | zero => intro i hj hij; have : i = 0 := by omega
+            subst this; exact Int.le_refl _
+  | succ j ih =>
+    intro i hj hij
+    by_cases hi : i = j + 1
+    · subst hi; exact Int.le_refl _
+    · have h1 := ih i (by omega) (by omega)
+      have h2 := (h.2 j hj (by have := h.1; omega)).1
+      omega
+
+theorem Tracks.congr {c t} {P Q : Seg → Seg → Prop} (h : Tracks c t P)
+    (hpq : ∀ a ∈ t, ∀ b ∈ t, (P a b ↔ Q a b)) : Tracks c t Q := by
+  refine ⟨h.1, fun i h1 h2 => ?_⟩
+  have := h.2 i h1 h2
+  rw [← hpq _ (List.getElem_mem _) _ (List.getElem_mem _)]
+  exact this
+
+theorem tracks_const (t : List Seg) : Tracks (t.map (fun _ => (0 : Int))) t (fun _ _ => True) := by
+  refine ⟨by simp, fun i h1 h2 => ?_⟩
+  simp
+
+/-! ### `enumerate_changes` on integer levels -/
+
+def iabs (z : Int) : Int := if z < 0 then -z else z
+
+def cum (g : Seg → Int) (n p : Int) : List Seg → List Int
+  | [] => []
+  | x :: xs => (n + iabs (g x - p)) :: cum g (n + iabs (g x - p)) (g x) xs
+
+def intChanges (g : Seg → Int) : List Seg → List Int
+  | [] => []
+  | x :: xs => 0 :: cum g 0 (g x) xs
+
+theorem ratAbs_int (a b : Int) : ratAbs ((a : Rat) - (b : Rat)) = ((iabs (a - b) : Int) : Rat) := by
+  unfold ratAbs iabs
+  rw [← Rat.intCast_sub]
+  by_cases h : a - b < 0
+  · rw [if_pos h, if_pos (Rat.intCast_neg_iff.mpr h), Rat.intCast_neg]
+  · rw [if_neg h, if_neg (fun h' => h (Rat.intCast_neg_iff.mp h'))]
+
+theorem enumChangesGo_int (g : Seg → Int) (n p : Int) (xs : List Seg) :
+    enumChangesGo (n : Rat) (some (p : Rat)) (xs.map (fun r => some ((g r : Int) : Rat))) = cum g n p xs := by
+  induction xs generalizing n p with
+  | nil => rfl
+  | cons x xs ih =>
+    simp only [List.map_cons, enumChangesGo, cum]
+    rw [ratAbs_int, ← Rat.intCast_add, Rat.floor_intCast, ih]
+
+theorem enumChanges_int (g : Seg → Int) (t : List Seg) :
+    enumChanges (t.map (fun r => some ((g r : Int) : Rat))) = intChanges g t := by
+  cases t with
+  | nil => rfl
+  | cons x xs =>
+    simp only [List.map_cons, enumChanges, intChanges]
+    have := enumChangesGo_int g 0 (g x) xs
+    rw [Rat.intCast_zero] at this
+    rw [this]
+
+theorem cum_length (g : Seg → Int) (n p : Int) (xs : List Seg) : (cum g n p xs).length = xs.length := by
+  induction xs generalizing n p with
+  | nil => rfl
+  | cons x xs ih => simp [cum, ih]
+
+theorem cum_succ (g : Seg → Int) (n p : Int) (xs : List Seg) :
+    ∀ i (h1 : i + 1 < (cum g n p xs).length) (h2 : i + 1 < xs.length),
+      (cum g n p xs)[i+1] = (cum g n p xs)[i] + iabs (g xs[i+1] - g xs[i]) := by
+  induction xs generalizing n p with
+  | nil => intro i h1 h2; simp at h2
+  | cons x xs ih =>
+    intro i h1 h2
+    cases i with
+    | zero =>
+      cases xs with
+      | nil => simp at h2
+      | cons y ys => simp [cum]
+    | succ i =>
+      simp only [cum, List.getElem_cons_succ]
+      exact ih _ _ i (by simpa [cum] using h1) (by simpa using h2)
+
+theorem intChanges_length (g : Seg → Int) (t : List Seg) : (intChanges g t).length = t.length := by
+  cases t with
+  | nil => rfl
+  | cons x xs => simp [intChanges, cum_length]
+
+theorem intChanges_succ (g : Seg → Int) (t : List Seg) :
+    ∀ i (h1 : i + 1 < (intChanges g t).length) (h2 : i + 1 < t.length),
+      (intChanges g t)[i+1] = (intChanges g t)[i] + iabs (g t[i+1] - g t[i]) := by
+  cases t with
+  | nil => intro i h1 h2; simp at h2
+  | cons x xs =>
+    intro i h1 h2
+    cases i with
+    | zero =>
+      cases xs with
+      | nil => simp at h2
+      | cons y ys => simp [intChanges, cum]
+    | succ i =>
+      simp only [intChanges, List.getElem_cons_succ]
+      exact cum_succ g _ _ xs i (by simpa [intChanges] using h1) (by simpa using h2)
+
+theorem tracks_intChanges (g : Seg → Int) (t : List Seg) :
+    Tracks (intChanges g t) t (fun a b => g a = g b) := by
+  refine ⟨intChanges_length g t, fun i h1 h2 => ?_⟩
+  rw [intChanges_succ g t i h1 h2]
+  unfold iabs
+  split <;> constructor <;> first | omega | (constructor <;> intro h <;> omega)
+
+/-! ### the chromosome ordinal -/
+
+theorem idxOf_eraseDups_adj (p q : List String) (a b : String) (hnew : b ≠ a → b ∉ p ++ [a]) :
+    (p ++ a :: b :: q).eraseDups.idxOf a ≤ (p ++ a :: b :: q).eraseDups.idxOf b ∧
+    ((p ++ a :: b :: q).eraseDups.idxOf a = (p ++ a :: b :: q).eraseDups.idxOf b ↔ a = b) := by
+  by_cases hab : a = b
+  · subst hab; simp
+  · have hb : b ∉ p ++ [a] := hnew (fun h => hab h.symm)
+    have e : p ++ a :: b :: q = (p ++ [a]) ++ (b :: q) := by simp
+    rw [e, List.eraseDups_append]
+    have ha1 : a ∈ (p ++ [a]).eraseDups := List.mem_eraseDups.mpr (by simp)
+    have hb1 : b ∉ (p ++ [a]).eraseDups := fun h => hb (List.mem_eraseDups.mp h)
+    rw [List.idxOf_append, List.idxOf_append, if_pos ha1, if_neg hb1]
+    have := List.idxOf_lt_length_of_mem ha1
+    constructor
+    · omega
+    · constructor
+      · intro h; omega
+      · intro h; exact absurd h hab
+
+theorem contig_new (t : List Seg) (hc : ChromContig t) (P Q : List Seg) (X Y : Seg)
+    (ht : t = P ++ X :: Y :: Q) (hne : Y.chrom ≠ X.chrom) :
+    Y.chrom ∉ P.map (·.chrom) ++ [X.chrom] := by
+  intro hmem
+  rcases List.mem_append.mp hmem with hmem | hmem
+  · obtain ⟨Z, hZ, hZc⟩ := List.mem_map.mp hmem
+    obtain ⟨l1, l2, rfl⟩ := List.append_of_mem hZ
+    have := hc l1 (l2 ++ [X]) Q Z Y X (by simp [ht]) (by simp) hZc
+    exact hne (hZc ▸ this.symm)
+  · simp at hmem; exact hne hmem
+
+theorem tracks_ord (t : List Seg) (hc : ChromContig t) :
+    Tracks (t.map (fun r => chromOrdinal ((t.map (·.chrom)).eraseDups) r.chrom)) t
+      (fun a b => a.chrom = b.chrom) := by
+  refine ⟨by simp, fun i h1 h2 => ?_⟩
+  have ht : t = t.take i ++ t[i] :: t[i+1] :: t.drop (i+2) := by
+    rw [← List.drop_eq_getElem_cons, ← List.drop_eq_getElem_cons, List.take_append_drop]
+  have hcs : t.map (·.chrom) =
+      (t.take i).map (·.chrom) ++ t[i].chrom :: t[i+1].chrom :: (t.drop (i+2)).map (·.chrom) := by
+    have := congrArg (List.map (·.chrom)) ht
+    simpa only [List.map_append, List.map_cons] using this
+  have := idxOf_eraseDups_adj ((t.take i).map (·.chrom)) ((t.drop (i+2)).map (·.chrom))
+    t[i].chrom t[i+1].chrom (fun hne => contig_new t hc _ _ _ _ ht hne)
+  rw [← hcs] at this
+  simp only [List.getElem_map, chromOrdinal]
+  constructor
+  · exact Int.ofNat_le.mpr this.1
+  · rw [← this.2]; exact Int.ofNat_inj
+
+/-! ### combining the key columns -/
+
+theorem keys_spec (t : List Seg) (ord : Seg → Int) (C A B : List Int) (PC PO PA PB : Seg → Seg → Prop)
+    (hC : Tracks C t PC) (hO : Tracks (t.map ord) t PO) (hA : Tracks A t PA) (hB : Tracks B t PB) :
+    let ks := ((C.zip t).map (fun p => p.1 + ord p.2)).zip (A.zip B)
+    ks.length = t.length ∧
+    (∀ i (h1 : i + 1 < ks.length) (h2 : i + 1 < t.length),
+        ks[i] = ks[i+1] ↔ (PC t[i] t[i+1] ∧ PO t[i] t[i+1]) ∧ PA t[i] t[i+1] ∧ PB t[i] t[i+1]) ∧
+    (∀ i j (h1 : i + 1 < ks.length) (hj : j < ks.length), i < j → ks[i] ≠ ks[i+1] → ks[j] ≠ ks[i]) := by
+  intro ks
+  have hlC := hC.1
+  have hlA := hA.1
+  have hlB := hB.1
+  have hlO : (t.map ord).length = t.length := hO.1
+  have hlen : ks.length = t.length := by simp [ks]; omega
+  have e : ∀ i (h : i < ks.length),
+      ks[i] = (C[i]'(by omega) + (t.map ord)[i]'(by omega), A[i]'(by omega), B[i]'(by omega)) := by
+    intro i h; simp [ks]
+  refine ⟨hlen, ?_, ?_⟩
+  · intro i h1 h2
+    rw [e i (by omega), e (i+1) h1]
+    simp only [Prod.mk.injEq]
+    obtain ⟨c1, c2⟩ := hC.2 i (by omega) h2
+    obtain ⟨o1, o2⟩ := hO.2 i (by omega) h2
+    obtain ⟨a1, a2⟩ := hA.2 i (by omega) h2
+    obtain ⟨b1, b2⟩ := hB.2 i (by omega) h2
+    rw [← c2, ← o2, ← a2, ← b2]
+    constructor
+    · rintro ⟨hk, ha, hb⟩
+      exact ⟨⟨by omega, by omega⟩, ha, hb⟩
+    · rintro ⟨⟨h1, h2⟩, ha, hb⟩
+      exact ⟨by omega, ha, hb⟩
+  · intro i j h1 hj hij hne heq
+    apply hne
+    rw [e j hj, e i (by omega)] at heq
+    rw [e i (by omega), e (i+1) h1]
+    simp only [Prod.mk.injEq] at heq ⊢
+    obtain ⟨hk, ha, hb⟩ := heq
+    have c1 := (hC.2 i (by omega) (by omega)).1
+    have o1 := (hO.2 i (by omega) (by omega)).1
+    have a1 := (hA.2 i (by omega) (by omega)).1
+    have b1 := (hB.2 i (by omega) (by omega)).1
+    have c2 := hC.mono j (i+1) (by omega) (by omega)
+    have o2 := hO.mono j (i+1) (by omega) (by omega)
+    have a2 := hA.mono j (i+1) (by omega) (by omega)
+    have b2 := hB.mono j (i+1) (by omega) (by omega)
+    refine ⟨by omega, by omega, by omega⟩
+
+theorem natOrMissing_decode (q : Option Rat) (hq : NatOrMissing q) :
+    ∃ z : Int, -1 ≤ z ∧ q = (if z = -1 then none else some (z : Rat)) := by
+  rcases hq with rfl | ⟨n, rfl⟩
+  · exact ⟨-1, by omega, by simp⟩
+  · refine ⟨(n : Int), by omega, ?_⟩
+    rw [if_neg (by omega), Rat.intCast_natCast]
+
+theorem natOrMissing_repr (q : Option Rat) (hq : NatOrMissing q) :
+    q.getD (-1) = (((q.getD (-1)).floor : Int) : Rat) := by
+  obtain ⟨z, hz, rfl⟩ := natOrMissing_decode q hq
+  by_cases h : z = -1
+  · subst h
+    have : (-1 : Rat) = ((-1 : Int) : Rat) := rfl
+    simp only [if_true, Option.getD_none]
+    rw [this, Rat.floor_intCast]
+  · simp only [if_neg h, Option.getD_some, Rat.floor_intCast]
+
+theorem natOrMissing_inj (q q' : Option Rat) (hq : NatOrMissing q) (hq' : NatOrMissing q') :
+    (q.getD (-1)).floor = (q'.getD (-1)).floor ↔ q = q' := by
+  constructor
+  · intro h
+    obtain ⟨z, hz, rfl⟩ := natOrMissing_decode q hq
+    obtain ⟨z', hz', rfl⟩ := natOrMissing_decode q' hq'
+    have e : ∀ w : Int, ((if w = -1 then none else some (w : Rat) : Option Rat).getD (-1)).floor = w := by
+      intro w
+      by_cases hw : w = -1
+      · subst hw
+        have : (-1 : Rat) = ((-1 : Int) : Rat) := rfl
+        simp only [if_true, Option.getD_none]
+        rw [this, Rat.floor_intCast]
+      · simp only [if_neg hw, Option.getD_some, Rat.floor_intCast]
+    rw [e z, e z'] at h
+    rw [h]
+  · intro h; rw [h]
 
 /-! ### the group keys of the code select exactly the maximal runs -/
 
@@ -82,19 +651,104 @@ theorem squashByGroups_eq_runs (h : Bool) (f : Seg → Option Rat) (t : List Seg
     (hc : ChromContig t) (hf : ∀ r ∈ t, IntLevel (f r))
     (h1 : h = true → ∀ r ∈ t, NatOrMissing r.cn1 ∧ NatOrMissing r.cn2) :
     squashByGroups h t (t.map f) = specSquash h f t := by
-  sorry
+  -- integer representatives of the levels
+  let g : Seg → Int := fun r => match f r with | some q => q.floor | none => 0
+  have hg : ∀ r ∈ t, f r = some ((g r : Int) : Rat) := by
+    intro r hr
+    obtain ⟨z, hz⟩ := hf r hr
+    simp only [g, hz, Rat.floor_intCast]
+  have hmapf : t.map f = t.map (fun r => some ((g r : Int) : Rat)) := List.map_congr_left hg
+  have hC : Tracks (enumChanges (t.map f)) t (fun a b => f a = f b) := by
+    rw [hmapf, enumChanges_int]
+    refine (tracks_intChanges g t).congr ?_
+    intro a ha b hb
+    rw [hg a ha, hg b hb]
+    simp
+  have hO := tracks_ord t hc
+  have hfm : ∀ L : List (List ((Int × Int × Int) × Seg)),
+      L.filterMap (fun g => squashRegion (g.map (·.2))) =
+        (L.map (fun g => g.map (·.2))).filterMap squashRegion := by
+    intro L; rw [List.filterMap_map]; rfl
+  unfold squashByGroups specSquash
+  simp only []
+  rw [hfm]
+  congr 1
+  cases h with
+  | false =>
+    simp only [Bool.false_eq_true, if_false]
+    obtain ⟨k1, k2, k3⟩ := keys_spec t _ _ _ _ _ _ _ _ hC hO (tracks_const t) (tracks_const t)
+    refine groupByKey_zip_eq_splitRuns (fullLevel false f) t _ k1 ?_ k3
+    intro i i1 i2
+    rw [k2 i i1 i2]
+    simp only [fullLevel, Bool.false_eq_true, if_false, Bool.and_eq_true, beq_iff_eq, Prod.mk.injEq,
+      and_true]
+    exact and_comm
+  | true =>
+    have h1' := h1 rfl
+    let c1 : Seg → Int := fun r => (r.cn1.getD (-1)).floor
+    let c2 : Seg → Int := fun r => (r.cn2.getD (-1)).floor
+    have hA : Tracks (enumChanges (t.map (fun r => some (r.cn1.getD (-1))))) t (fun a b => a.cn1 = b.cn1) := by
+      have : t.map (fun r => some (r.cn1.getD (-1))) = t.map (fun r => some ((c1 r : Int) : Rat)) :=
+        List.map_congr_left (fun r hr => by rw [natOrMissing_repr _ (h1' r hr).1])
+      rw [this, enumChanges_int]
+      refine (tracks_intChanges c1 t).congr ?_
+      intro a ha b hb
+      exact natOrMissing_inj _ _ (h1' a ha).1 (h1' b hb).1
+    have hB : Tracks (enumChanges (t.map (fun r => some (r.cn2.getD (-1))))) t (fun a b => a.cn2 = b.cn2) := by
+      have : t.map (fun r => some (r.cn2.getD (-1))) = t.map (fun r => some ((c2 r : Int) : Rat)) :=
+        List.map_congr_left (fun r hr => by rw [natOrMissing_repr _ (h1' r hr).2])
+      rw [this, enumChanges_int]
+      refine (tracks_intChanges c2 t).congr ?_
+      intro a ha b hb
+      exact natOrMissing_inj _ _ (h1' a ha).2 (h1' b hb).2
+    simp only [if_true]
+    obtain ⟨k1, k2, k3⟩ := keys_spec t _ _ _ _ _ _ _ _ hC hO hA hB
+    refine groupByKey_zip_eq_splitRuns (fullLevel true f) t _ k1 ?_ k3
+    intro i i1 i2
+    rw [k2 i i1 i2]
+    simp only [fullLevel, if_true, Bool.and_eq_true, beq_iff_eq, Prod.mk.injEq]
+    constructor
+    · rintro ⟨⟨a, b⟩, c, d⟩; exact ⟨b, a, c, d⟩
+    · rintro ⟨b, a, c, d⟩; exact ⟨⟨a, b⟩, c, d⟩
+
+theorem intLevel_ite3 (a b : Prop) [Decidable a] [Decidable b] :
+    IntLevel (some (if a then (1 : Rat) else if b then -1 else 0)) ∧
+    IntLevel (some (if a then (-1 : Rat) else if b then 1 else 0)) := by
+  constructor
+  · by_cases ha : a
+    · exact ⟨1, by rw [if_pos ha]; rfl⟩
+    · by_cases hb : b
+      · exact ⟨-1, by rw [if_neg ha, if_pos hb]; rfl⟩
+      · exact ⟨0, by rw [if_neg ha, if_neg hb]; rfl⟩
+  · by_cases ha : a
+    · exact ⟨-1, by rw [if_pos ha]; rfl⟩
+    · by_cases hb : b
+      · exact ⟨1, by rw [if_neg ha, if_pos hb]; rfl⟩
+      · exact ⟨0, by rw [if_neg ha, if_neg hb]; rfl⟩
 
 /-- the `ampdel` levels are −1 / 0 / 1 -/
-theorem levelAmpdel_int (r : Seg) : IntLevel (levelAmpdel r) := by
-  sorry
-theorem levelCi_int (r : Seg) : IntLevel (levelCi r) := by
-  sorry
-theorem levelSem_int (r : Seg) : IntLevel (levelSem r) := by
-  sorry
+theorem levelAmpdel_int (r : Seg) : IntLevel (levelAmpdel r) := (intLevel_ite3 _ _).1
+theorem levelCi_int (r : Seg) : IntLevel (levelCi r) := (intLevel_ite3 _ _).2
+theorem levelSem_int (r : Seg) : IntLevel (levelSem r) := (intLevel_ite3 _ _).2
 
+set_option linter.unusedSimpArgs false in
 /-- a run kept by `ampdel` consists only of deleted (cn = 0) or only of amplified (cn ≥ 5) segments -/
 theorem ampdel_level_meaning (r : Seg) (c : Rat) (hc : r.cn = some c) :
     (levelAmpdel r = some 1 ↔ c ≥ 5) ∧ (levelAmpdel r = some (-1) ↔ c = 0) := by
-  sorry
+  have h5 : ((5 : Int) : Rat) = 5 := rfl
+  have h0 : ((0 : Int) : Rat) = 0 := rfl
+  have hl : levelAmpdel r = some (if c ≥ 5 then 1 else if c = 0 then -1 else 0) := by
+    simp [levelAmpdel, hc, Generated.AMPDEL_AMP_MIN, Generated.AMPDEL_DEL_EQ, h5, h0]
+  rw [hl]
+  by_cases h1 : c ≥ 5
+  · have h2 : c ≠ 0 := by
+      intro h; rw [h] at h1; exact absurd h1 (by decide)
+    simp only [if_pos h1, h1, h2, iff_false, true_and, Option.some.injEq]
+    decide
+  · by_cases h2 : c = 0
+    · simp only [if_neg h1, if_pos h2, h1, h2, Option.some.injEq, iff_false, iff_true, and_true]
+      decide
+    · simp only [if_neg h1, if_neg h2, h1, h2, Option.some.injEq, iff_false]
+      decide
 
 end CnvVerif
